@@ -39,7 +39,7 @@ func genConvCase(t *rapid.T) ConvCase {
 	if rapid.IntRange(0, 3).Draw(t, "long") == 0 {
 		// (not more: a column-wise read of a converted row group keeps every page of the mirrored
 		// sibling alive until it is closed, several MiB per thousand one-row pages)
-		c.Rows = rapid.IntRange(400, 800).Draw(t, "rowslong")
+		c.Rows = rapid.IntRange(400, 1100).Draw(t, "rowslong")
 	}
 	c.ReadBuf = []int{0, 256, 1024}[rapid.IntRange(0, 2).Draw(t, "readbuf")]
 	for n := rapid.IntRange(1, 5).Draw(t, "nlens"); n > 0; n-- {
@@ -157,7 +157,7 @@ func runConvCase(c ConvCase, o *kit.Obs) *kit.Failure {
 	}
 	base := &faultyReader{data: data, fail: -1}
 	n, err, bad := read(base)
-	feat := "{via=" + c.Via + "}"
+	feat := fmt.Sprintf("{via=%s,short=%v,kind=%d}", c.Via, c.Short, c.Kind)
 	if bad != "" || err != nil || n != c.Rows {
 		// the fault-free read is not this check's subject (C12 judges conversions)
 		o.Class("baseline-not-clean")
@@ -185,7 +185,7 @@ func runConvCase(c ConvCase, o *kit.Obs) *kit.Failure {
 var convSpec = &kit.Spec[ConvCase]{
 	Property: "C14",
 	Name:     "converted",
-	Rule: "1-400 (a quarter: 400-800) rows {id, repeated group l{x}} (lists of 0 or 1 element, small pages, read buffers of 256 / 1024 bytes or default) read through a target schema that adds an optional column y inside the repeated group — column-wise through NewRowGroupRowReader / MultiRowGroup over the converted row groups, through the converted row group's Rows(), through NewReader(file, schema) — while every ReadAt call of the fault-free read fails once (own error, an error wrapping io.EOF, a plain io.EOF; outright or with a short count): " +
+	Rule: "1-400 (a quarter: 400-1100) rows {id, repeated group l{x}} (lists of 0 or 1 element, small pages, read buffers of 256 / 1024 bytes or default) read through a target schema that adds an optional column y inside the repeated group — column-wise through NewRowGroupRowReader / MultiRowGroup over the converted row groups, through the converted row group's Rows(), through NewReader(file, schema) — while every ReadAt call of the fault-free read fails once (own error, an error wrapping io.EOF, a plain io.EOF; outright or with a short count): " +
 		"the read reports an error or delivers every row (each compared). Non-trivial = at least 4 ReadAt calls.",
 	Assumptions: []string{"lists of at most one element: the chunk synthesized for an added column under a repeated group is wrong for longer lists (known family F36), which C12 judges"},
 	Gen:         genConvCase,
